@@ -23,7 +23,7 @@ var asmCommon = []string{
 
 func init() {
 	prop("C01", "accepted QoS>=1 publishes are retransmitted until acknowledged", "§4 C01",
-		[]string{"ORD-1", "ORD-2", "ORD-3", "ORD-5", "TOK-1", "TOK-5", "OWN-3", "OWN-4", "OWN-5"},
+		[]string{"ORD-1", "ORD-2", "ORD-3", "ORD-5", "TOK-1", "TOK-5", "OWN-3", "OWN-4", "OWN-5", "OWN-8"},
 		"path-sensitive must-pass-through and typestate over SSA; who-may rules",
 		lvlCommon, noteCommon,
 		"Decides on every path: accept order (capacity test → Save=nil → enqueue → acceptN++; error ⇒ nothing enqueued/counted/written; first write only without backlog), resend (ascending from the acknowledgement counter, Load=nil and found → write=nil per iteration, DUP condition, both resends nil before the connection is published, under both sequence tokens and the write token), acknowledgement handlers (Delete/Save=nil before counter++ before close/forward; error returns carry no effect), every stream/handler/Persistence error in readSlices resets the connection; token balance and lock order; who may write the counters, delete records and close exchanges. Not decided: that the broker is eventually reached; payload bytes on the wire.",
@@ -78,7 +78,7 @@ func init() {
 		"Decides: the four remaining-length encoders are structurally identical and encode exactly the value that was tested against packetMax; on every option combination and per loop iteration the remaining length equals the number of bytes appended after it (symbolic linear forms); every 16-bit length prefix is emitted for a string some validator bounds to 65,535; validators dominate the first side effect of every request method and constructor and no deny error is returned after one; validator sentinels are in denyErrs; identifier spaces are disjoint, non-zero and 16-bit. Not decided: full decode round-trip for all inputs, UTF-8 classification (utf8.ValidString trusted), that no valid argument is denied.",
 		asmCommon)
 	prop("C10", "the read routine never wedges", "§4 C10",
-		[]string{"RCH-1", "OWN-7", "TOK-4", "TOK-5", "TOK-6", "TOK-7", "TOK-11", "ORD-5", "ORD-6", "ORD-7", "ERR-5"},
+		[]string{"RCH-1", "OWN-7", "TOK-1", "TOK-4", "TOK-5", "TOK-6", "TOK-7", "TOK-11", "ORD-5", "ORD-6", "ORD-7", "ERR-5"},
 		"call-graph reachability; token typestate; must-pass-through; rendezvous rule",
 		lvlCommon, noteCommon,
 		"Decides: no function reachable from readSlices contains a wait-for-connect cycle (a CFG cycle through a receive from writeSem); read-routine fields and connect/toOffline/termCallbacks are confined to the read routine; failures are noticed (the connection is never redeposited after a failed write; every error return of readSlices except connect/marker-Save/BigMessage passes toOffline), toOffline closes, deposits connPending, clears readConn/bufr/peek/bigMessage and releases waiting requests after the token exchange; every failure exit of connect closes the new connection and deposits connDown; lock order acyclic, nothing foreign blocks under the write token, every goroutine rendezvous has its partner on all paths; callback channels never block the responder; ReadBackoff returns nil only for ErrClosed and otherwise a channel closed by a bounded timer. Not decided: that a dial eventually succeeds; timing bounds.",
@@ -90,7 +90,7 @@ func init() {
 		"Decides: after a slot is installed every exit received from its own callback or removed its own slot; the registry is accessed under its mutex, inserts are dominated by the window test and by a failed lookup of the same identifier; the answer goes to the channel and filters returned by the single endTx call keyed with the identifier parsed from that packet; callbacks are answered only after removal from their registry, with capacity ≥ the sends of a life cycle; toOffline and termCallbacks release all waiting requests with ErrBreak; error classes per method and quit ⇒ ErrCanceled/ErrAbandoned. Known finding F7 (Ping empties the shared slot without identity check) is reported as KNOWN-FINDING. Not decided: absence of starvation under real schedules.",
 		asmCommon)
 	prop("C12", "Close and Disconnect from any state", "§4 C12",
-		[]string{"TOK-1", "TOK-2", "TOK-3", "TOK-7", "TOK-8", "PAN-2", "PAN-4", "ORD-8", "ERR-2"},
+		[]string{"TOK-1", "TOK-2", "TOK-3", "TOK-7", "TOK-8", "PAN-2", "PAN-4", "ORD-7", "ORD-8", "ERR-2"},
 		"token typestate (closer summaries, closed-aware receives); rendezvous rule; must-pass-through",
 		lvlCommon, noteCommon,
 		"Decides: Close/Disconnect cancel the context before waiting for connSem, take connSem, take or interrupt the writer, and close both tokens exactly once while holding both (a second call sees the closed channel and touches nothing); every receive from a closable token is comma-ok or under the closer's lock; the dialAndConnect watcher and the termCallbacks goroutines have their rendezvous partner on every path; signal flips happen under the write token with the opposite signal blocked first; no method is called on a connSignal or nil connection; ReadSlices calls termCallbacks on ErrClosed, queued exchanges get ErrClosed and stay open; DISCONNECT is the last packet; not-submitted classes imply no wire call. Not decided: 'promptly' as a time bound; goroutine-leak freedom beyond the spawned closures having exits on all paths.",
@@ -108,7 +108,7 @@ func init() {
 		"Decides: every origin that can reach the error result of a request method carries at least one class the package documentation lists for it; values sent on callback channels never carry a not-submitted class and exchange channels only ErrDown/ErrSubmit/ErrClosed; a return of class ErrClosed/ErrDown/ErrMax/ErrCanceled/deny lies on a path without any wire-capable call other than the one that produced it; quit arms return exactly ErrCanceled before and ErrAbandoned after submission; deny and end tables are disjoint and complete; Backoff/ReadBackoff return nil exactly under the permanent classes; a persisted publish that errs was not enqueued. Known finding F9c (Disconnect returns the raw Close error) is reported as KNOWN-FINDING. Not decided: the classifiers on arbitrarily wrapped/joined user errors.",
 		asmCommon)
 	prop("C15", "stored records round-trip; damage detected", "§4 C15",
-		[]string{"COD-8", "OWN-4", "ADP-2", "ADP-3", "ORD-7"},
+		[]string{"COD-8", "OWN-4", "OWN-8", "ADP-2", "ADP-3", "ORD-7"},
 		"writer/reader table comparison; who-may rules; path rules",
 		lvlCommon, noteCommon,
 		"Decides: encodeValue and decodeValue agree on hash constructor, byte orders, offsets (8/4/12) and hashed extent, the trailer buffer is per call, the length test dominates all slicing and acceptance requires both tests; the rugged Load returns a value only after a nil decode and reports absence only for a nil delegate result; every Persistence the client uses is rugged or volatile; AdoptSession decodes every listed key and deletes, warns and skips corrupt ones; the client identifier comes from a checked Load. Not decided: that FNV-1a detects every single-byte change (a fact about hash/fnv, trusted); multi-byte damage.",
